@@ -131,11 +131,27 @@ pub fn mk_fq12(c: &[Fq]) -> Fq12 {
     Fq12 { c0: mk_fq6(&c[0..6]), c1: mk_fq6(&c[6..12]) }
 }
 
+thread_local! {
+    /// set when a field element was printed whose internal representation is not the canonical one, i.e. the
+    /// library's own `==` says it differs from `from_repr(into_repr(x))`
+    pub static NONCANON: std::cell::Cell<bool> = std::cell::Cell::new(false);
+}
+
 pub fn fq_hex(x: &Fq) -> String {
-    limbs_hex(x.into_repr().as_ref())
+    let r = x.into_repr();
+    match Fq::from_repr(r) {
+        Ok(c) if c == *x => {}
+        _ => NONCANON.with(|f| f.set(true)),
+    }
+    limbs_hex(r.as_ref())
 }
 pub fn fr_hex(x: &Fr) -> String {
-    limbs_hex(x.into_repr().as_ref())
+    let r = x.into_repr();
+    match Fr::from_repr(r) {
+        Ok(c) if c == *x => {}
+        _ => NONCANON.with(|f| f.set(true)),
+    }
+    limbs_hex(r.as_ref())
 }
 pub fn fq2_hex(x: &Fq2) -> String {
     format!("{},{}", fq_hex(&x.c0), fq_hex(&x.c1))
